@@ -114,6 +114,17 @@ def check_facade(sh, kind, facade, spa, refs, cfg, log, block, wit):
             if facade.get_device(d.key) is not d or facade.get_device(k2) is not d:
                 sh.violation(f"{keyp}:lookup", f"get_device({d.key!r}) does not return that device (by the device's own key object: {facade.get_device(d.key) is d}; by an equal string: {facade.get_device(k2) is d})", wit)
                 break
+    # the inventory lists and the lookup must speak of the same objects: every listed pump, blower
+    # and light is found under its key, and no other user device is
+    listed = [x for cls in ("PUMP", "BLOWER", "LIGHT") for x in got[cls]]
+    for dev in listed:
+        if facade.get_device(dev.key) is not dev:
+            sh.violation(f"{keyp}:lookup", f"get_device({dev.key!r}) does not return the device the facade lists under {type(dev).__name__.replace('Gecko', '').lower()}s (returns {facade.get_device(dev.key)!r})", dict(wit, device=dev.key))
+            break
+    user_classes = tuple(CLASS_OF.values())
+    stray = [d.key for d in devs if type(d).__name__ in user_classes and not any(d is x for x in listed)]
+    if stray:
+        sh.violation(f"{keyp}:devices-list", f"all_automation_devices / devices contain user devices {stray} that the facade's pump, blower and light lists do not", dict(wit, stray=stray))
     if facade.devices != keys:
         sh.violation(f"{keyp}:devices-list", f"facade.devices {facade.devices} != keys of all automation devices {keys}", wit)
     sh.see("inventory_shapes", (len(exp["PUMP"]), len(exp["BLOWER"]), len(exp["LIGHT"])))
@@ -201,6 +212,13 @@ def shard(sh: Shard, combos, seed, nwire, kinds, hashseed=None):
                         facade.scan_outputs()
                         sh.count("threaded_rescans")
                         check_facade(sh, kind, facade, spa, refs, cfg, log, block, dict(wit, rescan=True))
+                        # ... and again after the outputs were really re-wired: inventory, device
+                        # list and lookup must all follow the new wiring
+                        style2, block2 = gen_block(r, refs, cfg, log, base)
+                        spa.struct.set_status_block(block2)
+                        facade.scan_outputs()
+                        sh.count("threaded_rescans_after_rewiring")
+                        check_facade(sh, kind, facade, spa, refs, cfg, log, block2, dict(wit, rescan="after re-wiring", wiring_style=style2, outputs={o: refs[o].decode(block2) for o in cfg.output_keys}))
                 except Exception as e:
                     d = describe_exc(e)
                     if d["where"] == "repo":
